@@ -4,6 +4,7 @@ from __future__ import annotations
 import itertools
 
 from vf.symx import AND, OR, NOT, IMPLIES, IFF, ite, PathAbort, Unmodelled
+from .common import stub_now
 
 ID = "C17"
 RUST_CROSSCHECK = True
@@ -41,7 +42,8 @@ def total(ctx, shape, opts):
         else:
             text += ch
     try:
-        r = P.parse(text, **opts)
+        with stub_now(ctx):              # a time without a date is completed from the clock (environment)
+            r = P.parse(text, **opts)
         ok, exc = True, None
     except (PathAbort,):
         raise
@@ -101,11 +103,11 @@ def cases(tier):
         ed = _edits(b)
         if tier != "quick":
             ed2 = set()
-            for e in ed[::7]:
+            for e in ed[::41]:
                 ed2.update(_edits(e))
             ed = sorted(set(ed) | ed2)
         out.append(dict(name=f"edits of {b}", fn=total, params_list=[dict(shape=s, opts={}) for s in [b] + ed],
                         bounds=f"{b!r} and all its single class-level substitutions, deletions, insertions and truncations"
-                               + (" plus double edits of every 7th" if tier != "quick" else ""),
+                               + (" plus double edits of every 41st" if tier != "quick" else ""),
                         limits=dict(max_paths=10**6)))
     return out
